@@ -193,6 +193,7 @@ class SupervisedOPF(OPF):
             j = 0
 
             k = self.subgraph.idx_nodes[j]
+            conqueror = k
 
             if self.pre_computed_distance:
                 weight = self.pre_distances[self.subgraph.nodes[k].idx][
